@@ -64,6 +64,7 @@ package syncer
 
 //@ func bytes.Equal(a, b) (r)
 //@   trusted library contract (pure)
+//@   ensures same_bytes: r <==> (len(a) == len(b) && forall i int :: 0 <= i && i < len(a) ==> a[i] == b[i])
 
 //@ func RedisOutput.filterCounterAdd
 //@   arith int
@@ -418,6 +419,7 @@ package syncer
 //@   assert at call skipKey: skip_record_uses_target_key: key == targetKeyStr
 //@   ensures ignore_builds_nothing: probedB == 1 && policyB == "ignore" ==> result0 == nil && result1 && result2 == nil
 //@   ensures error_stops: probedB == 1 && policyB == "error" ==> result2 != nil && result0 == nil
+//@   ensures every_keyed_value_is_probed_under_ignore_and_error: result0 != nil && e != nil && old(e.ObjectParser != nil && rdb.SpecObjType(e.ObjectParser) != rdb.RdbObjectFunction && rdb.SpecObjType(e.ObjectParser) != rdb.RdbObjectAux && rdb.SpecFirstBin(e) && (ro.cfg.KeyExists == "ignore" || ro.cfg.KeyExists == "error")) ==> probedB == 0
 
 // ---- cluster-mode replay units are single-slot or refused (C18) -----------------------------
 //   pinned  the unit's slot once it is known (first key of the first command, or the forced slot)
